@@ -6,7 +6,7 @@
        _get_total_proposal_deposit, _calc_change, _pack_tokens_for_change, the accounting before
        selection, _add_change_and_fee). *)
 From Coq Require Import NArith ZArith Ascii String List Bool Lia.
-From PyC Require Import Base Cbor Dict Value ValueOracle Balance.
+From PyC Require Import Base Cbor Dict Value ValueOracle Balance BalanceSel.
 Import ListNotations.
 Open Scope Z_scope.
 
@@ -262,6 +262,19 @@ Definition corr_body (st : bstate) (ins : list utxo) (body : bytes) : bool :=
 Definition corr_sel (explicit : list utxo) (selected : list (bytes * N)) (ins : list utxo) : bool :=
   same_set (map u_in ins) (map u_in (dedup_utxos explicit) ++ selected)
   && Nat.eqb (length ins) (length (dedup_utxos explicit) + length selected).
+
+(* the UTxO selection step (BalanceSel.v).  The pool handed to the selectors, as recorded from the implementation, is the
+   modelled one (same UTxOs, same order) ... *)
+Definition corr_pool (umap explicit excluded potential : list utxo) (addrs : list bytes) (impl_pool : list (bytes * N)) : bool :=
+  list_same txin_eqb (map u_in (offered_pool explicit excluded (candidates umap potential addrs))) impl_pool.
+(* ... the selector's answer is within the contract the balance theorem needs (members of that pool, none twice) ... *)
+Definition corr_selok (umap explicit excluded potential : list utxo) (addrs : list bytes) (sel : list (bytes * N)) : bool :=
+  selection_ok (offered_pool explicit excluded (candidates umap potential addrs)) sel.
+(* ... and self.inputs is what the model says it is after that answer *)
+Definition corr_sel_model (umap explicit excluded potential : list utxo) (addrs : list bytes) (sel : list (bytes * N))
+           (ins : list utxo) : bool :=
+  let m := inputs_after_selection explicit (offered_pool explicit excluded (candidates umap potential addrs)) sel in
+  same_set (map u_in ins) (map u_in m) && Nat.eqb (length ins) (length m).
 
 (* decision procedure for `covers` (only the asset ids that occur matter) *)
 Definition coversb (arr : list masset) (m : masset) : bool :=
